@@ -845,11 +845,19 @@ def check_C13(ctx):
     lib = ctx.snap.lib()
     orc = vlib.idn_oracle(gens.domains_of(gens.HIST_POOL))
     desc = lambda ln, a, b: 'per-operation outcome (ret:errcode:live[:rc,idn_rc,flags,idn-calls,arg-ok]) of the history differs from the state-machine model of theorems C13_*: %s vs %s' % (a, b)
+    def errstr_first(ln, a, b):
+        # a history whose FIRST divergence from the model is what eav_errstr returns (every validation before it agreed, code and all): the
+        # message does not describe the most recent eav_is_email call — C13's own clause, and the history is the failing input
+        ops = ln.split(' ')[1:]; ta, tb = a.split(' '), b.split(' ')
+        for op, x, y in zip(ops, ta, tb):
+            if x != y:
+                return op == 'x' and x.split(':')[1:] == y.split(':')[1:]
+        return False
     ex = gens.hist_exhaustive(orc, 4 if ctx.thorough() else 3)
-    corr(ctx, 'G-hist(exhaustive)', ex, lambda ln, o: o, exhaustive=True, describe=desc, nontrivial=lambda ln, o: ' R' in o, genuine=False,
+    corr(ctx, 'G-hist(exhaustive)', ex, lambda ln, o: o, exhaustive=True, describe=desc, nontrivial=lambda ln, o: ' R' in o, genuine=errstr_first,
          note='all sequences over 13 operations (mode changes incl. an invalid one, tld/mask changes, setup, errstr, 5 addresses, one IDN fault), between eav_init;eav_setup and eav_errstr;eav_free')
     rnd = gens.hist_random(ctx.rnd, orc, 3000 if not ctx.thorough() else 30000, length=40 if not ctx.thorough() else 200)
-    corr(ctx, 'G-hist(random)', rnd, lambda ln, o: o, describe=desc, nontrivial=lambda ln, o: ' R' in o, genuine=False)
+    corr(ctx, 'G-hist(random)', rnd, lambda ln, o: o, describe=desc, nontrivial=lambda ln, o: ' R' in o, genuine=errstr_first)
     # relation on the implementation alone: the last validation of a long history == the same validation on a fresh object
     pairs, fresh = [], []
     for h in rnd[:1500]:
